@@ -10,6 +10,10 @@ CLAIMED = {
             "Runtime monitoring: every single call over a small id/value alphabet x every subset of the write options from three pre-states and two configurations (bounded-exhaustive), all length-2 (thorough: length-3) sequences over a covering option set, and long random sequences on four message types are executed on the real resource; return value, error class, callback and interceptor counts, the Get/List after the call and the events seen by a backpressured subscriber are compared with the model after every step.",
             "The model is written from pkg/resource doc comments and the property text (DESIGN.md appendix C); where several preconditions fail at once any of their codes is accepted; nested update-mask paths through oneof members and overlapping mask paths are left to C05/C06.",
             "DESIGN.md §4 C01, appendix C"),
+    "C02": ("recorded-history linearizability checking (porcupine, per-id partitions, logical-clock call/return events) over forced window interleavings (build-tag hooks + parking) and stress with pseudo-random yields; independent conservation checkers",
+            "Runtime monitoring: concurrent Set/Add/Update/Delete/Get histories with uniquely tagged values are recorded at the client boundary and checked offline against the sequential model of C01 (Aborted/Unavailable are always-legal no-ops, precondition failures legal only in a justifying state). Every (victim op, window, interfering op sequence, pre-state) combination is forced deterministically by parking the victim inside the window, depth 2 adds a second parked victim; stress adds random 2-4 writer histories. Conservation (increments, generated ids, Adds per id) is checked independently of porcupine.",
+            "Windows are the hook points between optimistic read, change, lock and save; more than 4 writers and windows inside user callbacks are not explored; a porcupine timeout is inconclusive.",
+            "DESIGN.md §4 C02"),
     "C18": ("reference-model monitor (dense-timeline / step-function brute-force oracle) over exhaustive small grids and random inputs",
             "Runtime monitoring: every period pair on a small exhaustive grid, random 64-bit-range timestamps and random segment/mode lists are run through the real functions and compared with brute-force mathematical oracles; arguments are shadow-copied to detect mutation. Held on the executions listed in the evidence, nothing more.",
             "Oracles are written from the property text; float32 magnitudes are small integers so arithmetic is exact; inputs outside the stated domain (inverted periods) are counted, not judged.",
